@@ -17,6 +17,8 @@ CfgAll   == ConfigsQuick \cup ConfigsSingles \cup ConfigsPairs
 \* MaxPerm folds "many" keys onto the same walks as 2 or 3 keys: the quick run leaves the Many-level deviations out
 ProgsW1Low == {q \in ProgsW1 : \A f \in {"ann", "ns", "mapConst", "mapDefault", "inc", "defs"} : q[f] # Many}
 
+\* the two configurations that reach every site the pinned commit leaked at (quick self-test of layer P)
+CfgP2    == {x \in ConfigsQuick : x.name \in {"go+reflection/patch", "fastgo+no_fmt"}}
 \* Full walks six leaky sites under reflection: explored with three configurations only
 CfgFull  == {x \in ConfigsQuick : x.name \in {"go+reflection", "fastgo+no_fmt", "go/dump"}}
 
